@@ -46,7 +46,7 @@ func vpHas(list []string, s string) bool {
 	return false
 }
 
-// BOUND: 4 topologies (3-4 IPs; shared pod subnet, shared node subnet, /32 node subnet, two-range pool); symbolic allocation pre-state (any subset allocated; owner among {the pod's own key, another pod, app reserve}; policy 0..2; uid, node symbolic); pod kinds {statefulset, deployment}; policy symbolic; requested ranges {none, one address, one two-address range, two disjoint ranges}; candidate nodes n1,n5,n2,n3,n4; bind on any approved node; no faults, caches in sync
+// BOUND: 4 topologies (3-4 IPs; shared pod subnet, shared node subnet, /32 node subnet, two-range pool); symbolic allocation pre-state (any subset allocated; owner among {the pod's own key, another pod, app reserve}; policy 0..2; uid, node symbolic); pod kinds {statefulset, deployment}; policy symbolic; requested ranges {none, one address, one two-address range, two disjoint ranges, three single addresses}; candidate nodes n1,n5,n2,n3,n4; bind on any approved node; no faults, caches in sync
 // ASSUME: C06: nothing else changes between Filter and Bind; the lister holds the pod; no fault is injected
 // ASSUME: C06: pre-states satisfy "a key without requested ranges holds at most one IP" and "app replicas (2) not exceeded"
 func VerifC06_q_filterBindAgree() {
@@ -57,7 +57,11 @@ func VerifC06_q_filterBindAgree() {
 	ranges := ""
 	nReq := 0
 	var requested []string // addresses covered by the requested ranges
-	switch nondetChoice(4) {
+	switch nondetChoice(5) {
+	case 4: // three single-address ranges: first, last, second address (on topologies with two node subnets: A, B, A)
+		verifAssume(len(w.ips) >= 3)
+		ranges, nReq = fmt.Sprintf(`[["%s"],["%s"],["%s"]]`, w.ips[0], w.ips[len(w.ips)-1], w.ips[1]), 3
+		requested = []string{w.ips[0], w.ips[len(w.ips)-1], w.ips[1]}
 	case 1:
 		c := w.ips[nondetChoice(len(w.ips))]
 		ranges, nReq, requested = fmt.Sprintf(`[["%s"]]`, c), 1, []string{c}
